@@ -1,1 +1,2 @@
 import QecVerif.Props.C07.Basic
+import QecVerif.Props.C07.Planar
